@@ -100,10 +100,11 @@ func runC06s(seed int64, tier string, sc *Script) map[string]any {
 	}
 	ops := 0
 	for ci := 0; ci < cases; ci++ {
-		kind := []string{"mem", "file", "mem", "filecas", "mem", "filenov"}[ci%6]
+		kind := []string{"mem", "file", "mem", "filecas", "mem", "filenov", "mem", "fileinn"}[ci%8]
 		forceCAS := kind == "filecas"
 		noOverwrite := kind == "filenov"
-		if forceCAS || noOverwrite {
+		ignoreNoName := kind == "fileinn"
+		if forceCAS || noOverwrite || ignoreNoName {
 			kind = "file"
 		}
 		// universe: blobs (some sharing bytes under another media type for the memory store),
@@ -158,12 +159,14 @@ func runC06s(seed int64, tier string, sc *Script) map[string]any {
 		for _, n := range nodes {
 			byKey[keyOf(n.desc)] = n.id
 		}
-		sc.Case("store-history " + kind + map[bool]string{true: " ForceCAS"}[forceCAS] + map[bool]string{true: " DisableOverwrite"}[noOverwrite])
+		sc.Case("store-history " + kind + map[bool]string{true: " ForceCAS"}[forceCAS] + map[bool]string{true: " DisableOverwrite"}[noOverwrite] + map[bool]string{true: " IgnoreNoName"}[ignoreNoName])
 		sc.NonTrivial()
 		if forceCAS {
 			sc.Def("s new kind=%s cas=1", kind)
 		} else if noOverwrite {
 			sc.Def("s new kind=%s nov=1", kind)
+		} else if ignoreNoName {
+			sc.Def("s new kind=%s inn=1", kind)
 		} else {
 			sc.Def("s new kind=%s", kind)
 		}
@@ -206,6 +209,7 @@ func runC06s(seed int64, tier string, sc *Script) map[string]any {
 			}
 			fstore.ForceCAS = forceCAS
 			fstore.DisableOverwrite = noOverwrite
+			fstore.IgnoreNoName = ignoreNoName
 			st = fstore
 		}
 		withName := func(d ocispec.Descriptor, name int) ocispec.Descriptor {
